@@ -4,13 +4,13 @@ from vlib import Case
 
 RULE = ("controlled schedules (real threads, one runnable at a time, yield at every COCLS_VERIF_POINT and at every handle copy / drop) of "
         "a creator thread (7 construction modes: ctor from fn(promise), ctor from fn returning a future, default + get_promise(), "
-        "default + init_if_needed + copies handed to polling/dropping users BEFORE get_promise(), "
+        "default + init_if_needed + copies handed to polling/dropping users BEFORE get_promise(), shared_future<T> from fn returning future<T&> resolved through promise<T&>, "
         "default + init_if_needed + copy + get_promise() on the copy, set_value, ctor from an async coroutine's start()), a resolver (value / "
         "exception / drop) and 0-5 user threads that first keep / copy-construct / copy-assign onto a live handle / move-assign onto a live "
         "handle / self-assign their handle and then drop / poll ready()+value() / co_await / sync() / join() / subscribe a callback awaiter (every value is read twice; a moved-from payload is recognisable); value types instance-counted "
         "struct, void, unique_ptr (move-only), reference; payload and exception are "
         "instance counted, ASan + LSan (leak check after every case) are observations; random, bursty, resolver-starving and resolver-first "
-        "schedules; thorough adds every schedule prefix of length 6 over 3 choices for 20 small configurations; "
+        "schedules; thorough adds every schedule prefix of length 6 over 3 choices for 21 small configurations; "
         "non-trivial = at least 3 thread switches in the executed trace; distinct = distinct (threads, schedule); "
         "plus a free-running stress part (no forced interleaving): two threads released by a spin barrier drop the last two handles of a "
         "pending state at once (destructor / move assignment / copy assignment), resolver afterwards, up to 40000 (quick) / 100000 (thorough) "
@@ -53,7 +53,7 @@ def gen(seed, tier):
     n = 700 if tier == "quick" else 4000
     cases = []
     for i in range(n):
-        mode = rng.choice([0, 0, 1, 1, 2, 3, 3, 4, 5, 5, 6, 6]) if i % 7 else rng.choice([0, 1, 2, 3, 5, 6])
+        mode = rng.choice([0, 0, 1, 1, 2, 3, 3, 4, 5, 5, 6, 6, 7, 7]) if i % 7 else rng.choice([0, 1, 2, 3, 5, 6, 7])
         res = (rng.choice([0, 0, 1, 2]), rng.randint(1, 99))
         if mode == 5 and res[0] == 2:
             res = (0, res[1])      # a coroutine cannot drop its promise
@@ -79,7 +79,7 @@ def gen(seed, tier):
                 (1, (0, 5), [(0, 0)]), (1, (0, 5), [(0, 4)]), (1, (1, 5), [(1, 2)]), (2, (0, 5), [(0, 4), (0, 0)]),
                 (3, (0, 5), [(0, 2), (0, 3)]), (0, (0, 5), [(0, 2), (0, 4)]), (0, (0, 5), []), (1, (2, 0), []),
                 (0, (0, 5), [(1, 1)]), (4, (0, 5), [(0, 2), (1, 0)]), (5, (0, 5), [(0, 2)]), (5, (1, 5), [(0, 0)]),
-                (0, (0, 5), [(2, 4)]), (1, (0, 5), [(3, 0)]), (6, (0, 5), [(0, 1), (0, 2)]), (0, (0, 5), [(0, 5), (0, 1)])]
+                (0, (0, 5), [(2, 4)]), (1, (0, 5), [(3, 0)]), (6, (0, 5), [(0, 1), (0, 2)]), (0, (0, 5), [(0, 5), (0, 1)]), (7, (0, 5), [(0, 2), (1, 3)])]
         j = 0
         for (mode, res, users) in cfgs:
             for pre in itertools.product(range(3), repeat=6):
